@@ -22,9 +22,15 @@ pub fn generate(seed: u64, tier: Tier) -> Case {
     let family = *rng.pick(&[
         "valid", "valid", "valid", "valid", "error", "vftable_name", "vftable_name",
         "vftable_name", "registry_collision", "disk_collision", "graph", "graph",
+        "shadowed_generated_name",
     ]);
     let mut params = Params::default();
     let (project, mut world) = match family {
+        "shadowed_generated_name" => {
+            let g = gen_shadow_project(&mut rng, ptr);
+            let w = World::from_files(ptr, g.files());
+            (g, w)
+        }
         "graph" => {
             let g = crate::props::c10::gen_graph_project(&mut rng, tier, ptr);
             let w = World::from_files(ptr, g.files());
@@ -261,6 +267,167 @@ pub fn mention_generated_vftable(rng: &mut Rng, p: &mut Project) -> bool {
         }
     }
     true
+}
+
+/// A generated `<T>Vftable` name competing with another definition of the same short name that
+/// an import brings into scope: which one a mention binds to must not depend on whether `T`
+/// has been attempted yet.
+pub fn gen_shadow_project(rng: &mut Rng, ptr: usize) -> Project {
+    let mut p = Project {
+        ptr,
+        modules: vec![],
+        items: vec![],
+        style: rng.next_u64(),
+    };
+    let names = ["owner", "other", "user"];
+    for (k, n) in names.iter().enumerate() {
+        let mut path: Vec<String> = (0..rng.below(2)).map(|d| format!("s{d}{k}")).collect();
+        path.push(n.to_string());
+        p.modules.push(Module {
+            path,
+            ..Default::default()
+        });
+    }
+    let vfunc = |name: &str| Func {
+        vis: true,
+        name: name.to_string(),
+        recv: Some(false),
+        args: vec![],
+        ret: None,
+        address: None,
+        index: None,
+        cc: None,
+        doc: None,
+    };
+    let owner_type = |module: usize, nfuncs: usize, ptr: usize| Item {
+        module,
+        name: "Thing".into(),
+        vis: true,
+        doc: None,
+        kind: ItemKind::Type {
+            fields: vec![],
+            vftable: Some(crate::project::Vft {
+                funcs: (0..nfuncs).map(|i| vfunc(&format!("vf{module}_{i}"))).collect(),
+                size: None,
+            }),
+            size: None,
+            align: None,
+            packed: false,
+            flags: Flags::default(),
+            singleton: None,
+            impl_funcs: vec![],
+            semicolon_form: false,
+        },
+        csize: ptr,
+        calign: ptr,
+        vslots: None,
+    };
+    // owner::Thing has a vftable block, so owner::ThingVftable comes into existence during
+    // resolution.
+    p.items.push(owner_type(0, rng.range(1, 3), ptr));
+    // The competitor in `other`: a user type called ThingVftable, or another Thing with a
+    // vftable block of a different length.
+    if rng.chance(1, 2) {
+        p.items.push(Item {
+            module: 1,
+            name: "ThingVftable".into(),
+            vis: true,
+            doc: None,
+            kind: ItemKind::Type {
+                fields: vec![field("user_bytes", Ty::Prim("u8").arr(ptr * rng.range(4, 9)))],
+                vftable: None,
+                size: None,
+                align: Some(ptr),
+                packed: false,
+                flags: Flags::default(),
+                singleton: None,
+                impl_funcs: vec![],
+                semicolon_form: false,
+            },
+            csize: 0,
+            calign: ptr,
+            vslots: None,
+        });
+    } else {
+        p.items.push(owner_type(1, rng.range(4, 6), ptr));
+    }
+    // Where the mention lives and how the two candidates are imported.
+    let owner_path = p.modules[0].item_path();
+    let other_path = p.modules[1].item_path();
+    let m = match rng.below(3) {
+        0 => {
+            // In the owner's module: own (generated) definition vs. module import of `other`.
+            p.modules[0].extra_uses.push(format!("use {other_path};"));
+            0
+        }
+        1 => {
+            // In a third module: import by name of the generated type vs. module import.
+            let mut lines = vec![
+                format!("use {owner_path}::ThingVftable;"),
+                format!("use {other_path};"),
+            ];
+            if rng.chance(1, 2) {
+                lines.reverse();
+            }
+            p.modules[2].extra_uses.extend(lines);
+            2
+        }
+        _ => {
+            // In a third module: two module imports, precedence by order.
+            let mut lines = vec![format!("use {owner_path};"), format!("use {other_path};")];
+            if rng.chance(1, 2) {
+                lines.reverse();
+            }
+            p.modules[2].extra_uses.extend(lines);
+            2
+        }
+    };
+    let vty = Ty::Name("ThingVftable".into());
+    let idx = p.items.len();
+    match rng.below(3) {
+        0 => push_simple_type(rng, &mut p, m, idx, vec![field("table", vty)]),
+        1 => push_simple_type(rng, &mut p, m, idx, vec![field("table", vty.cptr())]),
+        _ => {
+            p.items.push(Item {
+                module: m,
+                name: format!("U{idx}"),
+                vis: true,
+                doc: None,
+                kind: ItemKind::Type {
+                    fields: vec![],
+                    vftable: None,
+                    size: None,
+                    align: None,
+                    packed: false,
+                    flags: Flags::default(),
+                    singleton: None,
+                    impl_funcs: vec![Func {
+                        vis: true,
+                        name: "takes_table".into(),
+                        recv: Some(false),
+                        args: vec![("table".into(), vty.clone().cptr())],
+                        ret: rng.chance(1, 2).then(|| vty.clone().mptr()),
+                        address: Some(0x4000),
+                        index: None,
+                        cc: None,
+                        doc: None,
+                    }],
+                    semicolon_form: false,
+                },
+                csize: 0,
+                calign: 1,
+                vslots: None,
+            });
+            p.modules[m].order.push(Decl::Item(idx));
+            p.modules[m].order.push(Decl::Impl(idx));
+        }
+    }
+    for i in 0..2 {
+        let m = p.items[i].module;
+        let pos = rng.below(p.modules[m].order.len() + 1);
+        p.modules[m].order.insert(pos, Decl::Item(i));
+    }
+    p
 }
 
 /// A type with a single region: default alignment is that region's, no size attribute needed.
